@@ -108,6 +108,22 @@ impl Scenario for Offer {
 
     fn shrink(&self, plan: &OfferPlan) -> Vec<OfferPlan> {
         let mut out = Vec::new();
+        // drop entries that no step refers to any more
+        let used: std::collections::BTreeSet<usize> = plan.replicas.iter().flatten().filter_map(|s| if let OStep::Offer { i, .. } = s { Some(*i) } else { None }).collect();
+        if used.len() < plan.items.len() {
+            let map: std::collections::BTreeMap<usize, usize> = used.iter().enumerate().map(|(new, old)| (*old, new)).collect();
+            let mut p = plan.clone();
+            p.items = used.iter().filter_map(|i| plan.items.get(*i).cloned()).collect();
+            for r in p.replicas.iter_mut() {
+                r.retain(|s| if let OStep::Offer { i, .. } = s { map.contains_key(i) && *i < plan.items.len() } else { true });
+                for s in r.iter_mut() {
+                    if let OStep::Offer { i, .. } = s {
+                        *i = map[i];
+                    }
+                }
+            }
+            out.push(p);
+        }
         // fewer replicas
         if plan.replicas.len() > 1 {
             for i in 0..plan.replicas.len() {
